@@ -44,17 +44,28 @@ def _specialiser(p, ns):
     import ast
     from sa.specialise import flat
     out = []
-    Limits = ns['Limits']
-    for nm, cases in ns['SPECIALISE_CASES']:
+    for clsname, table, mk in (('Limits', 'SPECIALISE_CASES', lambda: ns['Limits'](2, 5)), ('Sorter', 'SPECIALISE_CASES_2', lambda: ns['Sorter']())):
+        out += _specialiser_cases(p, ns, clsname, ns[table], mk)
+    return out
+
+
+def _specialiser_cases(p, ns, clsname, table, mk):
+    import ast
+    from sa.specialise import flat
+    out = []
+    for nm, cases in table:
         tag = 'specialise-conformance-' + nm
         try:
-            f = p.method('Limits', nm)
+            f = p.method(clsname, nm)
             g = flat(p, f)
             if g is f and not getattr(f, 'inlined', None):       # (the snippets are new to the vocabulary: read in place at load)
                 out.append((tag, 'noisy', 'left as it stands'))
                 continue
             text = ast.unparse(g.node)
-            left = [w for w in ('_check(', '_check_kind(', '_with(', '_rebinding(', 'SIGN_TABLE', 'operator.', 'lambda ', 'lambda:', 'for ') if w in text]
+            left = [w for w in ('_check(', '_check_kind(', '_with(', '_rebinding(', 'SIGN_TABLE', 'operator.', 'lambda ', 'lambda:', 'for ',
+                                '_classify(', '_note(', '_is_big(') if w in text]
+            # (the second call in g_call_in_condition is evaluated only sometimes: it must stay where it is)
+            left = [w for w in left if not (nm == 'g_call_in_condition' and w == '_is_big(' and text.count('_is_big(') == 1)]
             if left:
                 out.append((tag, 'noisy', 'not fully specialised (%s): %s' % (left, text[:300])))
                 continue
@@ -62,11 +73,12 @@ def _specialiser(p, ns):
             exec(compile(ast.Module([g.node], []), '<specialised>', 'exec'), ns2)     # our own snippet, specialised
             bad = None
             for args in cases:
-                a, b = Limits(2, 5), Limits(2, 5)
+                a, b = mk(), mk()
                 ra = getattr(a, nm)(*args)
                 rb = ns2[nm](b, *args)
-                if not _same(ra, rb) or a.seen != b.seen:
-                    bad = 'args %r: wrapper %r %r, specialised %r %r' % (args, ra, a.seen, rb, b.seen)
+                sa_, sb_ = getattr(a, 'seen', None) or getattr(a, 'log', None), getattr(b, 'seen', None) or getattr(b, 'log', None)
+                if not _same(ra, rb) or sa_ != sb_:
+                    bad = 'args %r: wrapper %r %r, specialised %r %r' % (args, ra, sa_, rb, sb_)
                     break
             out.append((tag, 'noisy' if bad else 'silent', bad or ''))
         except Exception as e:
